@@ -123,6 +123,18 @@ func (s *Settings) TrustedProxyCIDRs() []string {
 	return s.trustedProxyCIDRs
 }
 
+// keepConfiguredTrustedProxyCIDRs keeps a trusted proxy CIDR setting that was
+// given but contains no entry (e.g. ",") distinguishable from an unset or blank
+// one: the raw text is kept as a single entry. The authorizer then reports it
+// as an invalid CIDR and trusts no proxy, instead of the empty list silently
+// meaning "trust every proxy". A blank value keeps its documented meaning.
+func keepConfiguredTrustedProxyCIDRs(raw string, parsed []string) []string {
+	if len(parsed) == 0 && strings.TrimSpace(raw) != "" {
+		return []string{strings.TrimSpace(raw)}
+	}
+	return parsed
+}
+
 func (s *Settings) LogLevel() slog.Level {
 	logLevel := valueOrDefault(s.logLevel, slog.LevelInfo.String())
 	switch strings.ToUpper(logLevel) {
